@@ -885,10 +885,30 @@ impl Xot {
                 "Cannot replace document node".to_string(),
             ));
         }
-        // there should always be a parent as we're not document node
-        let parent = self.parent(replaced_node).unwrap();
+        let parent = self.parent(replaced_node).ok_or_else(|| {
+            Error::InvalidOperation("Cannot replace node without a parent".to_string())
+        })?;
+        // check everything before the replaced node is destroyed
+        if !self.value(replaced_node).is_normal() {
+            return Err(Error::InvalidOperation(
+                "Cannot replace attribute or namespace node".to_string(),
+            ));
+        }
+        self.add_structure_check(Some(parent), replacing_node)?;
+        if self
+            .ancestors(replacing_node)
+            .any(|ancestor| ancestor == replaced_node)
+        {
+            return Err(Error::InvalidOperation(
+                "Cannot replace node with itself or one of its own descendants".to_string(),
+            ));
+        }
         // record previous sibling
         let previous_node = self.previous_sibling(replaced_node);
+        if previous_node == Some(replacing_node) {
+            // the replacing node is already in place
+            return self.remove(replaced_node);
+        }
         // remove the replaced node, use low-level remove_tree to avoid
         // text node reconciliation and document element detection
         replaced_node.get().remove_subtree(self.arena_mut());
